@@ -117,7 +117,7 @@ def run(tier, seed):
         if not vec['neg'] and canon.isdigit() and len(canon) <= 10:
             expect(f'{nm}2dec numeric', call(x2dec, int(canon)), n, case)
         # places
-        for p in range(1, 11):
+        for p in range(0, 11):       # places = 0 is always too small
             got = call(dec2x, n, p)
             if len(canon) > p:
                 expect_error(f'dec2{nm} places={p}', got, case, (NUM_ERROR,))
